@@ -188,7 +188,9 @@ class Scenario:
             b_box = "A"
         else:
             b_box = None if nat_b == "none" else "B"
-            self.B = mk(2, "B", ("3.0.0.1", 6002), ("192.168.2.20", 6002), b_box, "3.0.0.1", nat_b)
+            # alike: both home networks are numbered identically (same private address and port behind each router)
+            b_priv = ("192.168.1.10", 6001) if case.get("alike") and nat_a != "none" else ("192.168.2.20", 6002)
+            self.B = mk(2, "B", ("3.0.0.1", 6002), b_priv, b_box, "3.0.0.1", nat_b)
         a_box = None if nat_a == "none" else "A"
         self.fillers = []
         for j, (where, new) in enumerate(case["fillers"]):
@@ -209,7 +211,7 @@ class Scenario:
 
     # -- ground truth ------------------------------------------------------------------------------------
     def box_of(self, n):
-        return self.net.nat_of.get(n.address)
+        return self.net.box_of(n.raw_endpoint)
 
     def pub(self, n) -> tuple:
         b = self.box_of(n)
@@ -525,7 +527,9 @@ def execute(ctx: Ctx | None, case: dict) -> list[dict]:
                     ctx.count("early_walk_filtered_before_puncture")
             else:
                 ctx.count(s["what"])
-        ctx.case(case, nt, cls="%s-%s-%s" % (case["natA"], case["natB"], case["place"]))
+        ctx.case(case, nt, cls="%s-%s-%s%s" % (case["natA"], case["natB"], case["place"],
+                                               "-alike" if case.get("alike") and case["place"] == "diff"
+                                               and "none" not in (case["natA"], case["natB"]) else ""))
     return out
 
 
@@ -542,7 +546,7 @@ def configurations() -> list[dict]:
 def base_case(cfg: dict, idx: int) -> dict:
     return {"natA": cfg["natA"], "natB": cfg["natB"], "place": cfg["place"], "style": cfg["style"],
             "b_new": cfg["b_new"], "fillers": [["pub", 0]] * (cfg["k"] - 1), "rseed": idx, "rounds": 1,
-            "picks": [], "early": 0, "order": 0}
+            "picks": [], "early": 0, "order": 0, "alike": (idx // 5) % 2}
 
 
 def _strategy(cfg: dict):
@@ -558,6 +562,7 @@ def _strategy(cfg: dict):
                            st.lists(st.integers(0, 11), min_size=12, max_size=60)),
         "early": st.integers(0, 2),
         "order": st.integers(0, 23),
+        "alike": st.integers(0, 1),
     })
 
 
